@@ -18,7 +18,7 @@ def apply(F):
 
     F.contract([], r'fn derive_enc_ctx<A, Kdf, Kem, O>', ret='r', clauses=f'''
     requires suite_ok::<A, Kdf>(),
-    ensures /*@C02 C01 C07 C08 C11 C15*/ r.view() == {sched('mode', 'shared_secret.0.gv()', pub=False)},
+    ensures /*@C02 C07 C08 C11 C15 ~C01*/ r.view() == {sched('mode', 'shared_secret.0.gv()', pub=False)},
 ''')
     F.wrap([], r'fn derive_enc_ctx<A, Kdf, Kem, O>')
 
@@ -26,7 +26,7 @@ def apply(F):
     requires suite_ok::<A, Kdf>(),
     ensures
         /*@C18 C02*/ rng_stream::<R>(final(csprng)) == rng_stream::<R>(old(csprng)).skip({NSK} as int),
-        /*@C02 C01 C03 C08 C10 C13 C14*/ ({{
+        /*@C02 C01 C03 C08 C10 C13*/ ({{
             let sk_e = Kem::k_derive(rng_stream::<R>(old(csprng)).take({NSK} as int)).0;
             let e = Kem::k_encap(pk_recip.ser(), crate::kem::opt_pair_ser(mode.sender_keypair()), sk_e);
             &&& r is Ok <==> e is Some
@@ -40,7 +40,7 @@ def apply(F):
     F.contract([], r'pub fn setup_receiver<A, Kdf, Kem>', ret='r', clauses=f'''
     requires suite_ok::<A, Kdf>(),
     ensures
-        /*@C02 C01 C03 C08 C10 C13 C14*/ ({{
+        /*@C02 C01 C03 C08 C10 C13*/ ({{
             let d = Kem::k_decap(sk_recip.ser(), crate::kem::opt_ser(mode.sender_pk()), encapped_key.ser());
             &&& r is Ok <==> d is Some
             &&& r is Err ==> r == Err::<AeadCtxR<A, Kdf, Kem>, HpkeError>(HpkeError::DecapError)
